@@ -67,6 +67,23 @@ class C19(Prop):
                 cases.append({"kind": "VarString", "v": list(s.encode()), "trailing": tr()})
             cases.append({"kind": "VarBytes", "v": [rng.randrange(256) for _ in range(rng.choice([0, 1, 2, 255, rng.randrange(256)]))],
                           "trailing": tr()})
+        # an object that has unpacked another value before (often one the new value merely extends, or an empty one)
+        for c in list(cases):
+            if rng.random() >= 0.3 or c["kind"] in ("IPv4", "IPv6"):
+                continue
+            d = dict(c)
+            if c["kind"] in ("String", "VarString"):
+                txt = bytes(c["v"]).decode()
+                cut = rng.choice([0, len(txt) // 2, max(0, len(txt) - 1), len(txt)])
+                d["prev"] = list(txt[:cut].encode())
+            elif c["kind"] == "VarBytes":
+                d["prev"] = list(c["v"][:rng.randrange(0, len(c["v"]) + 1)])
+            else:
+                others = [o for o in cases if o["kind"] == c["kind"]]
+                d["prev"] = rng.choice(others)["v"]
+            d["kind"] = c["kind"]
+            d["reused"] = True
+            cases.append(d)
         for bit in range(8):
             for byte in ([0, 1, 0x80, 0xFF, 0x55] + [rng.randrange(256) for _ in range(6)] if tier == "quick" else range(256)):
                 cases.append({"kind": "BitArray", "v": bit, "byte": byte, "trailing": tr()})
@@ -75,12 +92,21 @@ class C19(Prop):
     def run_impl(self, case):
         from pyplumio.helpers import data_types as DT
         k, v, tr = case["kind"], case["v"], bytes(case["trailing"])
+        def read_back(cls, data, make_prev):
+            """from_bytes on a fresh object - or, when the case has an earlier value, unpack on an object that has already unpacked
+            that earlier value (decoders keep and reuse their data-type objects from frame to frame)"""
+            if "prev" not in case:
+                return cls.from_bytes(data)
+            obj = cls()
+            obj.unpack(make_prev(case["prev"]).to_bytes() + b"\x00\x00\x00\x00\x00\x00\x00\x00")
+            obj.unpack(data)
+            return obj
         try:
             if k in INTS:
                 cls = getattr(DT, k)
                 o = cls(v)
                 packed, s0 = o.to_bytes(), o.size
-                o2 = cls.from_bytes(packed + tr)
+                o2 = read_back(cls, packed + tr, cls)
                 return {"packed": list(packed), "size0": s0, "value": [1, o2.value], "size": o2.size}
             if k in ("Float", "Double"):
                 fmt, cls = ("<f", DT.Float) if k == "Float" else ("<d", DT.Double)
@@ -88,7 +114,7 @@ class C19(Prop):
                 val = struct.unpack(fmt, v.to_bytes(w, "little"))[0]
                 o = cls(val)
                 packed, s0 = o.to_bytes(), o.size
-                o2 = cls.from_bytes(packed + tr)
+                o2 = read_back(cls, packed + tr, lambda pv: cls(struct.unpack(fmt, pv.to_bytes(w, "little"))[0]))
                 return {"packed": list(packed), "size0": s0,
                         "value": [2, int.from_bytes(struct.pack(fmt, o2.value), "little")], "size": o2.size}
             if k in ("IPv4", "IPv6"):
@@ -103,12 +129,12 @@ class C19(Prop):
                 cls = getattr(DT, k)
                 o = cls(bytes(v).decode())
                 packed, s0 = o.to_bytes(), o.size
-                o2 = cls.from_bytes(packed + tr)
+                o2 = read_back(cls, packed + tr, lambda pv: cls(bytes(pv).decode()))
                 return {"packed": list(packed), "size0": s0, "value": [3, list(o2.value.encode())], "size": o2.size}
             if k == "VarBytes":
                 o = DT.VarBytes(bytes(v))
                 packed, s0 = o.to_bytes(), o.size
-                o2 = DT.VarBytes.from_bytes(packed + tr)
+                o2 = read_back(DT.VarBytes, packed + tr, lambda pv: DT.VarBytes(bytes(pv)))
                 return {"packed": list(packed), "size0": s0, "value": [3, list(o2.value)], "size": o2.size}
             if k == "BitArray":
                 src = DT.BitArray(value=case["byte"], index=v)
